@@ -316,6 +316,26 @@ def main(argv):
     for name, axioms in thms:
         rep.obligation('theorem ' + name + (' [axioms: %s]' % ', '.join(axioms) if axioms else ' [closed under the global context]'), True)
 
+    # ---- real-engine runs: the akita engine decides when the translator ticks
+    def engine_runs(args):
+        tmp = os.path.join(vlib.BUILD, 'c16_eng_%d.json' % os.getpid())
+        rc, elog = vlib.run([binary] + args + ['--out', tmp], timeout=600)
+        if rc != 0:
+            return [{'seed': 0, 'problem': 'real-engine run did not finish (rc %d): %s' % (rc, elog[-500:])}]
+        out = json.load(open(tmp))
+        os.remove(tmp)
+        return out
+
+    if replay_file and 'engine_seed' in json.load(open(replay_file)):
+        es = json.load(open(replay_file))['engine_seed']
+        res = engine_runs(['--engine-seed', str(es)])
+        badr = [r for r in res if r.get('problem')]
+        rep.obligation('real-engine run seed %d completes' % es, not badr)
+        if badr:
+            rep.violation({'property': PROP, 'what': badr[0]['problem'], 'engine_seed': es,
+                           'replay_cmd': './check C16 --replay <this file>'}, text='real engine: ' + badr[0]['problem'])
+        return rep.finish()
+
     # ---- run the implementation
     cases = []
     if replay_file:
@@ -345,6 +365,12 @@ def main(argv):
     # ---- correspondence with the model
     okc, mism, clog = vlib.eval_cases(PROP, HEADER, [c['coq'] for c in cases], shard_size=25)
     rep.obligation('correspondence: %d histories evaluated by the model' % len(cases), okc and not mism)
+
+    eng = [] if replay_file else engine_runs(['--engine-smoke', '400' if thorough else '60', '--seed', str(vlib.seed())])
+    eng_bad = [r for r in eng if r.get('problem')]
+    if eng:
+        rep.obligation('real engine: %d simulations (%d requests) ran to quiescence with every request answered once'
+                       % (len(eng), sum(r.get('requests', 0) for r in eng)), not eng_bad)
 
     hist = collections.Counter(e['e'] for c in cases for e in c['events'])
     sts = [stats(c) for c in cases]
@@ -377,6 +403,8 @@ def main(argv):
             1 for c in cases for i in range(len(c['events']) - 1)
             if c['events'][i]['e'] == 'tick' and c['events'][i + 1]['e'] == 'tick'
             and c['events'][i].get('progress') is False and c['events'][i].get('blocked')),
+        'real_engine_runs': len(eng), 'real_engine_requests': sum(r.get('requests', 0) for r in eng),
+        'real_engine_failures': len(eng_bad),
         'drained_cases': sum(1 for c in cases if c.get('drained')),
         'quiet_rule_all_requests': sum(1 for c in cases if c.get('_scope') == 'all'),
         'quiet_rule_after_restart': sum(1 for c in cases if c.get('_scope') == 'after-restart'),
@@ -398,6 +426,9 @@ def main(argv):
         m = monitor(out[0]) if out else None
         return m is not None and (want is None or cls(m) == want)
 
+    if eng_bad and not bad:
+        rep.violation({'property': PROP, 'what': eng_bad[0]['problem'], 'engine_seed': eng_bad[0]['seed'],
+                       'replay_cmd': './check C16 --replay <this file>'}, text='real engine: ' + eng_bad[0]['problem'])
     if bad:
         i, msg = bad[0]
         c = cases[i]
